@@ -126,7 +126,7 @@ func (h *harness) registrationTie() {
 	}
 	if len(got) > len(pinnedRegistration) {
 		h.res.Hit("registration-appended-entries")
-		h.res.Note("node/migration.go registers %d migrations, the whole-upgrade scenario knows %d: extend fullRegistry", len(got), len(pinnedRegistration))
+		h.res.Fatalf("node/migration.go registers %d migrations (%v), the whole-upgrade scenario knows %d: the new ones are not exercised by this check — extend fullRegistry and pinnedRegistration", len(got), got[len(pinnedRegistration):], len(pinnedRegistration))
 	}
 	if deprecatedPos == token.NoPos || runnerPos == token.NoPos || deprecatedPos > runnerPos {
 		h.res.Violate(lib.Violation{Sig: "deprecated-migrations-not-run-before-schema-runner",
